@@ -105,6 +105,21 @@ def run(ctx):
             if bad_fact:
                 failing.append(dict(files=f, base=b, kind=tag, why=bad_fact))
                 break
+            # every edge and both live sets: the dump's lists against the analysed graph (read by pointer identity in the harness,
+            # not through the dump's own look-ups - round 9: edges into rewritten returns were looked up by a stale hash and lost)
+            bad_edge = None
+            for fld, have in (("nexts", sorted(g["nodes"][i].nexts)), ("prevs", sorted(g["nodes"][i].prevs)),
+                              ("li", [r_ for r_ in range(32) if (g["nodes"][i].li >> r_) & 1]), ("lo", [r_ for r_ in range(32) if (g["nodes"][i].lo >> r_) & 1])):
+                fm = re.search(r" %s=\[([^\]]*)\]" % fld, node_txt)
+                if not fm:
+                    continue
+                dumped_l = sorted(int(z[1:]) for z in fm.group(1).split(",") if z)
+                if dumped_l != have:
+                    bad_edge = "node %d: the dump has %s = %s, the analysed graph has %s" % (i, fld, dumped_l, have)
+                    break
+            if bad_edge:
+                failing.append(dict(files=f, base=b, kind=tag, why=bad_edge))
+                break
             want = sorted((g["funcs"][fid]["entry"], g["funcs"][fid]["exit"]) for fid in g["nodes"][i].funcs if fid < len(g["funcs"]))
             if len(e) != len(x) or sorted(zip(e, x)) != want:
                 failing.append(dict(files=f, base=b, kind=tag, why="node %d: the dump pairs entries %s with exits %s, its functions are (entry, exit) = %s" % (i, e, x, want)))
